@@ -142,6 +142,71 @@ Theorem C17_capture_task : forall cap v b acts a,
 Proof. intros cap v b acts a Hnd Hin. exact (task_capture cap v b acts s_init Hnd a Hin). Qed.
 Print Assumptions C17_capture_task.
 
+(* ---- which verbosity a task is executed with (Stream, Task.overwrite_verbosity, Runner.select_task,
+   the `run` command) ---- *)
+(* priority: a forced global value, then the task's own value, then the global value *)
+Theorem C17_effective_verbosity : forall st tv,
+  (vs_force st = true -> effective_verbosity st tv = vs_verbosity st) /\
+  (vs_force st = false -> forall v, tv = Some v -> effective_verbosity st tv = v) /\
+  (vs_force st = false -> tv = None -> effective_verbosity st tv = vs_verbosity st).
+Proof. exact effective_verbosity_spec. Qed.
+Print Assumptions C17_effective_verbosity.
+
+(* the `run` command: -v on the command line, then the task's value, then the configuration, then 1 *)
+Theorem C17_cmd_verbosity_priority : forall cli cfg tv,
+  effective_verbosity (cmd_stream cli cfg) tv =
+  match cli with
+  | Some c => c
+  | None => match tv with Some t => t | None => match cfg with Some g => g | None => 1 end end
+  end.
+Proof. exact cmd_stream_priority. Qed.
+Print Assumptions C17_cmd_verbosity_priority.
+
+(* the attribute Task.execute / execute_teardown read is the effective verbosity of the task's own
+   value: a function of (own value, global value, forced) only -- it does not depend on whether
+   the task has setup tasks (is selected twice); and a second overwrite would change nothing *)
+Theorem C17_verbosity_setup_independent : forall st hs raw,
+  attr_at_execute st hs raw = Some (effective_verbosity st raw).
+Proof. exact attr_at_execute_spec. Qed.
+Print Assumptions C17_verbosity_setup_independent.
+
+Theorem C17_overwrite_idempotent : forall st tv,
+  effective_verbosity st (Some (effective_verbosity st tv)) = effective_verbosity st tv.
+Proof. exact effective_verbosity_idem. Qed.
+Print Assumptions C17_overwrite_idempotent.
+
+(* a whole run: which tasks have setup tasks is irrelevant for what is captured / shown (given the
+   execution order), and when no task has a say (forced, or none gives a value) it is the run at
+   the global verbosity of C17_restore_run *)
+Theorem C17_run_setup_independent : forall st us tds,
+  vrun_ops st us tds = vrun_ops st (map (fun u => (false, snd u)) us) tds.
+Proof. intros st us tds. exact (vrun_ops_flags st us tds). Qed.
+Print Assumptions C17_run_setup_independent.
+
+Theorem C17_run_global_verbosity : forall st ts tds,
+  vs_force st = true \/ (forall t, In t ts -> st_verb t = None) ->
+  vrun_ops st (map (fun t => (false, t)) ts) tds =
+  run_ops (vs_verbosity st) (map (fun t => {| t_capture := st_capture t; t_acts := st_acts t; t_teardown := st_teardown t |}) ts) tds.
+Proof. intros st ts tds. exact (vrun_ops_uniform st ts tds). Qed.
+Print Assumptions C17_run_global_verbosity.
+
+Theorem C17_restore_vrun : forall b st ts, s_cell (srun false b (vrun_ops st (units_of ts) [])) = SOrig.
+Proof. intros b st ts. exact (nested_restores b _ (vrun_ops_nested st (units_of ts) [] n_nil) s_init). Qed.
+Print Assumptions C17_restore_vrun.
+
+(* one action of a task executed by a runner: captured whatever the verbosity, shown live as the
+   EFFECTIVE verbosity dictates (0 nothing, 1 stderr, otherwise both), with or without setup tasks *)
+Theorem C17_live_follows_effective_partial : forall st hs raw cap ws e,
+  let v := effective_verbosity st raw in
+  let c := py_capture cap (verb_arg (attr_at_execute st hs raw)) ws e in
+  c_out c = (if cap then Some (chunks false ws) else None) /\
+  c_err c = (if cap then Some (chunks true ws) else None) /\
+  c_live_out c = (if cap && ((v =? 0) || (v =? 1)) then [] else chunks false ws) /\
+  c_live_err c = (if cap && (v =? 0) then [] else chunks true ws) /\
+  c_cell_out c = SOrig /\ c_cell_err c = SOrig.
+Proof. exact capture_effective. Qed.
+Print Assumptions C17_live_follows_effective_partial.
+
 Example C17_nested_nonvacuous :
   nested [Enter 1 (MCapture SOrig) (MCapture SNone); Write false 7; Enter 2 (MCapture SNone) (MCapture SNone);
           Write true 8; Exit 2 RBaseExc; Enter 3 MFail MFail; Exit 1 RBaseExc;
@@ -171,6 +236,20 @@ Example C17_task_nonvacuous :
   task_outcome acts = APropagates /\ map as_id (started acts) = [1; 2]%nat /\
   observe [1; 2; 3]%nat [] (srun false false (task_ops true 0 acts)) = [0; -2; 1; -2; 2; -1; -3].
 Proof. vm_compute. auto. Qed.
+
+(* -v 0 on the command line, configuration says 2: a task with setup tasks and verbosity 2 of its
+   own shows nothing live, its setup task (no value of its own) neither; without -v the task's own
+   value wins and the setup task gets the configuration's *)
+Example C17_verbosity_nonvacuous :
+  let main := {| st_verb := Some 2; st_capture := true; st_acts := [ {| as_id := 2; as_ws := [(false, 3); (true, 4)]; as_tag := RNone |} ]; st_teardown := [] |} in
+  let prep := {| st_verb := None; st_capture := true; st_acts := [ {| as_id := 1; as_ws := [(false, 1); (true, 2)]; as_tag := RNone |} ]; st_teardown := [] |} in
+  let ts := [ {| vt_task := main; vt_setup := [prep] |} ] in
+  map fst (units_of ts) = [false; true] /\
+  observe [1; 2]%nat [] (srun false false (vrun_ops (cmd_stream (Some 0) (Some 2)) (units_of ts) [])) = [0; -2; 1; -2; 3; -3] /\
+  observe [1; 2]%nat [] (srun false true (vrun_ops (cmd_stream (Some 0) (Some 2)) (units_of ts) [])) = [0; -2; 2; -2; 4; -3] /\
+  observe [1; 2]%nat [] (srun false false (vrun_ops (cmd_stream None (Some 1)) (units_of ts) [])) = [0; -2; 1; -2; 3; -3; 3] /\
+  observe [1; 2]%nat [] (srun false true (vrun_ops (cmd_stream None (Some 1)) (units_of ts) [])) = [0; -2; 2; -2; 4; -3; 2; 4].
+Proof. vm_compute. auto 6. Qed.
 
 (* two executions that overlap without being nested (two worker threads of the thread runner)
    leave a Writer installed: the statement cannot be extended to all interleavings (finding K1) *)
